@@ -82,6 +82,28 @@ func body() {
 		}
 		return nil
 	})
+	// fs.renamed fires inside FileStore.replace, after a new file got its final
+	// name and before the file store serves it.
+	renamed := map[string]func(){}
+	verifhook.Set("fs.renamed", func(name string, args ...interface{}) error {
+		p, _ := args[0].(string)
+		hmu.Lock()
+		h := renamed[filepath.Dir(p)]
+		hmu.Unlock()
+		if h != nil {
+			h()
+		}
+		return nil
+	})
+	setRenamed = func(dir string, h func()) {
+		hmu.Lock()
+		if h == nil {
+			delete(renamed, dir)
+		} else {
+			renamed[dir] = h
+		}
+		hmu.Unlock()
+	}
 	setHandler := func(path string, h func() error) {
 		hmu.Lock()
 		if h == nil {
@@ -120,6 +142,9 @@ func body() {
 	wg.Wait()
 	r.Finish()
 }
+
+// setRenamed registers a handler for the fs.renamed hook of one shard directory.
+var setRenamed func(dir string, h func())
 
 func oneHistory(caseID string, seed int64, index, dir string, idx int, setHandler func(string, func() error)) {
 	g := rand.New(rand.NewSource(seed))
@@ -209,8 +234,28 @@ func oneHistory(caseID string, seed int64, index, dir string, idx int, setHandle
 						r.Count("reads_while_snapshot_parked", int64(reads))
 						return nil
 					})
+					// a second look while the flushed file has its final name but is
+					// not served yet: the snapshot must still answer from the cache
+					var mid *sm.Mismatch
+					var midErr error
+					midN := 0
+					setRenamed(env.ShardDir(), func() {
+						if midN > 0 {
+							return
+						}
+						midN++
+						var reads int
+						reads, mid, midErr = tr.CheckAll(env, true)
+						r.Count("reads", int64(reads))
+						r.Count("reads_between_rename_and_install_of_a_snapshot_file", int64(reads))
+					})
 					err := env.Snapshot()
+					setRenamed(env.ShardDir(), nil)
 					setHandler(env.ShardDir(), nil)
+					if err == nil && innerOp == nil && midErr == nil && mid != nil {
+						fail("C02/lww/"+mid.Kind+"/snapshot-file-renamed-not-installed", op, "read while the flushed snapshot file is renamed but not yet installed: "+mid.Error(), sm.MinTime, sm.MaxTime)
+						return false
+					}
 					if innerOp != nil {
 						return false
 					}
